@@ -18,10 +18,11 @@ warnings.filterwarnings("ignore", message="the only element of Source is an iter
 
 PID = "C01"
 TITLE = "Sequence and Source compute the left-to-right composition of their elements"
-LEAN_MODULES = ["LenaModel.Props.C01"]
+LEAN_MODULES = ["LenaModel.Props.C01", "LenaModel.Props.C01Kinds"]
 LEAN_SOURCES = ["LenaModel/Model/C17.lean", "LenaModel/Model/Flow.lean", "LenaModel/Model/C01Stream.lean",
                 "LenaModel/Model/C01.lean", "LenaModel/Lemmas/C01.lean", "LenaModel/Props/C01.lean",
-                "LenaModel/Lemmas/C17.lean", "LenaModel/Props/C17.lean"]
+                "LenaModel/Lemmas/C17.lean", "LenaModel/Props/C17.lean",
+                "LenaModel/Model/C01Kinds.lean", "LenaModel/Props/C01Kinds.lean"]
 DRIVER = "drivers/C01.lean"
 # the theorems that carry the property (see the module docstring of lean/LenaModel/Props/C01.lean)
 THEOREMS = [
@@ -47,6 +48,19 @@ THEOREMS = [
     "Lena.C01.mkBranch_error",
     "Lena.C01.splitGo_fuel",
     "Lena.C01.splitLoopH_fuel",
+    # adversary follow-up (Props/C01Kinds.lean): "every input flow" - the kind of the flow object and the class of an
+    # exception do not matter
+    "Lena.C01.runObj_eq_run",
+    "Lena.C01.runObj_input_kind",
+    "Lena.C01.runObj_result_iterator",
+    "Lena.C01.loop_needs_conversion",
+    "Lena.C01.source_callObj_kind",
+    "Lena.C01.source_callObj_eq_call",
+    "Lena.C01.stored_run_rename",
+    "Lena.C01.runStored_rename",
+    "Lena.C01.rerunStored_eq_runWithHist",
+    "Lena.C01.shared_elements",
+    "Lena.C01.runWithHist_append",
 ]
 # true by definition of the model, consistency between two model functions, or restatements of a recursion: audited
 # for axioms like the others, not counted as proof obligations of the property
@@ -66,6 +80,12 @@ AUX_THEOREMS = [
     "Lena.C01.source_construction_consumes_nothing",
     "Lena.C01.source_one_pass",
     "Lena.C01.callAt_zero",
+    "Lena.C01.flowToIter_kind",
+    "Lena.C01.flowToIter_strm",
+    "Lena.C01.flowToIter_eq",
+    "Lena.C01.runObjLoop_iterator",
+    "Lena.C01.mapS_rename",
+    "Lena.C01.fcLoop_rename",
 ]
 TRUSTED = [
     "Lean 4.33.0 kernel; axioms limited to propext, Classical.choice, Quot.sound (audited by #print axioms on every run)",
@@ -81,9 +101,12 @@ TRUSTED = [
 ]
 ASSUMPTIONS = [
     "finite flows; the consumer drains the returned iterator (partial consumption is the subject of C02); the flow given "
-    "to run is iterable (a non-iterable flow makes flow_to_iter raise TypeError - not generated)",
-    "flows handed from element to element are iterators (run/compute are generators, as in all lena elements); a compute() "
-    "that returns a list is outside the vocabulary",
+    "to run is iterable (a non-iterable flow makes flow_to_iter raise TypeError - not generated); it is handed over as an "
+    "iterator (list_iterator, generator object, a hand-written iterator class) or as an iterable without __next__ (list, "
+    "tuple, deque, a reader class with __iter__ only) - also what a callable first element of a Source returns",
+    "flows handed from element to element are iterators (run/compute are generators, as in all lena elements; "
+    "RunShape.outKind = iterator in runObj_eq_run); a run() or compute() that returns a container is outside the "
+    "vocabulary (the element after it would get a non-iterator in a flat Sequence but an iterator behind a nested one)",
     "that a chain of lazily interleaved Python generators is the composition of stream stages (each stage a function of "
     "the complete upstream stream: values + terminating exception) is the modelling decision of Model/C01Stream.lean, "
     "validated by the correspondence check and at the pull level by LenaModel/Bridge/Flow.lean "
@@ -106,7 +129,9 @@ ASSUMPTIONS = [
     "container that is the first element of a Source called again holds only immutable values (both would yield the same "
     "value objects again, whose contexts Count/Variable changed in place in the earlier run)",
     "the elements of one program are distinct objects, except: one stateless element object passed twice to one "
-    "Sequence is generated; an object WITH state passed twice, or shared between two sequences, is not",
+    "Sequence is generated, and element objects (with state) shared between sequences that are constructed and run one "
+    "after the other (new Sequence objects, flat / nested, around used elements); an object WITH state passed twice to "
+    "one Sequence is not",
     "Split: branches given as tuples (and, for stateless sequences, as Sequence objects), of type 'sequence' or "
     "'fill_compute'; before the fill/compute element only callables, Variable, Filter, RunIf over stateless elements "
     "(Slice.fill_into / Count.fill_into and a LenaStopFill that reaches Split are C17/C05/C03, fill_request and source "
@@ -114,13 +139,23 @@ ASSUMPTIONS = [
     "the code, so the model has no function for it (the oracle demands that a Sequence branch equals the tuple branch)",
     "a Sequence nested directly in a Sequence that is iterated as first element of a Source is not generated (the generic "
     "model has no value for that object); element objects and None travelling as values are observed by their class name",
-    "value universe: ints, strings, None, lists, tuples, (data, context) pairs, dyadic floats; bool is excluded (bool "
-    "arithmetic is int arithmetic; nothing in the anchored code looks at the type); a float is compared exactly when it is "
+    "value universe of the model: ints, strings, None, lists, tuples, (data, context) pairs, dyadic floats; bool, bytes, a "
+    "dict as data, the empty tuple and plain callables that return them (a predicate used as a map, ...) occur only in "
+    "cases without a model side, judged by the hand-chained reference; a float is compared exactly when it is "
     "an input value, float(n)/float(d) of Mean, or passes through 0 + f / f / 1.0 unchanged; any other float arithmetic "
     "is predicted as 'some float' and accepted as such",
-    "exceptions raised by elements: TypeError, ValueError, IndexError, LenaValueError, LenaStopFill, LenaTypeError, "
-    "LenaZeroDivisionError, LenaAttributeError (from callables, predicates, fill, compute and the input iterator); "
-    "StopIteration inside a generator and BaseException are not generated",
+    "exceptions raised by callables, predicates, fill and the input iterator: the ten classes the model names (TypeError, "
+    "ValueError, IndexError, AttributeError, LenaValueError, LenaStopFill, LenaTypeError, LenaZeroDivisionError, "
+    "LenaAttributeError, LenaNotImplementedError) and 18 it has no name for (LenaKeyError, LenaRuntimeError, LenaIndexError, "
+    "LenaEnvironmentError, LenaException, KeyError, ZeroDivisionError, RuntimeError, NotImplementedError, OSError, "
+    "AssertionError, LookupError, ArithmeticError, EOFError, OverflowError, UnicodeError, NameError, BufferError): for those "
+    "the model is asked under two different renamings into its own classes (at most two such classes per case; "
+    "runStored_rename is the theorem behind it) and the hand-chained reference is the direct oracle; StopIteration inside a "
+    "generator (PEP 479) and BaseException (KeyboardInterrupt, GeneratorExit) are not generated",
+    "adversary round, judgements: all ten candidates of notes/adversary_C01 change behaviour inside the statement "
+    "(none judged outside); meta.alter_sequence has no model function: the code discards what an element proposes, the "
+    "oracle demands that a Sequence branch of Split equals the tuple of the same elements (elements with a callable "
+    "alter_sequence that propose another order are generated in every quick run)",
     "Python attribute lookup (hasattr/callable/isinstance) is represented by capability flags read from the real objects; "
     "a callable attribute is assumed to have the arity its caller uses",
 ]
@@ -150,7 +185,17 @@ RULE = ("exhaustive: capability flags (run, __call__, fill, compute, _has_no_dat
         "object, a list, a tuple as arguments; ONE Source object called 2-3 times (generator function, container, one-pass "
         "iterator, callable+iterable first; tail with state); one stateless element object passed twice; Split branches "
         "given as Sequence objects (through meta.alter_sequence, with Cache-like hoisting elements) against tuples; the "
-        "auxiliary functions runIfS, accFill/accCompute, pySlice, Element.sourceFlow against the code. Non-trivial: at least two data elements and (a value yielded or an exception).")
+        "auxiliary functions runIfS, accFill/accCompute, pySlice, Element.sourceFlow against the code. Adversary follow-up: the flow "
+        "handed to run as iterator / list / tuple / deque / reader (only __iter__) / iterator class / generator object (every "
+        "representative as first element x 6 kinds, pairs in turn, 30-40 % of the sampled cases), a callable first element of a "
+        "Source that returns each of them, a tuple / deque / reader AS first element; every exception class (10 named by the model + 18 others, through two renamings) from a "
+        "callable, a predicate, a fill, the input iterator and the first element of a Source, around a fill/compute element; "
+        "adapters.Run / Run(.., run='run') put by the caller around ANY element (nested ones, other adapters, twice); NEW "
+        "Sequence objects (flat / nested in turn) around element objects that were used before, in every repeated-run case; "
+        "elements whose alter_sequence proposes another order in Sequence branches of Split (fixed cases + 30 % of the sampled); "
+        "a first element of a Source that is neither callable nor iterable (None, a plain object, an object with __getitem__ "
+        "only); plain callables with bool / dict / bytes / tuple results and such values (500 / 8000 programs without a model "
+        "side); one element's own run on every kind of flow object against Stored.runObj. Non-trivial: at least two data elements and (a value yielded or an exception).")
 CASE_TIMEOUT = 10
 
 # ----------------------------------------------------------------------------------------
@@ -170,6 +215,10 @@ def dec(j):
             return {k: dec(v) for k, v in j["d"].items()}
         if "q" in j:
             return float(j["q"][0]) / float(j["q"][1])      # a float value of a flow, given exactly
+        if "bool" in j:
+            return bool(j["bool"])                          # (only in cases without a model side)
+        if "bytes" in j:
+            return j["bytes"].encode("ascii")
         raise ValueError(j)
     if j == NONE:
         return None
@@ -187,6 +236,12 @@ def enc(v):
         return {"d": {str(k): enc(x) for k, x in v.items()}}
     if type(v) is float:
         return {"f": repr(v)}
+    if type(v) is bool:
+        return {"bool": int(v)}
+    if type(v) is bytes:
+        return {"bytes": v.decode("ascii")}
+    if getattr(type(v), "_verif_junk", False):
+        return NONE          # the objects without any interface are one class for the model
     # an element object travelling as a value (a Sequence iterated as first element of a Source)
     return "<obj:%s>" % type(v).__name__
 
@@ -210,24 +265,97 @@ def model_value(j):
 
 EXC = {"Other:ValueError": ValueError, "Other:TypeError": TypeError, "Other:IndexError": IndexError}
 LENA_EXC = ["LenaValueError", "LenaStopFill", "LenaTypeError"]
+# exception classes the model has a name for (Lena.Flow.Exc): raised by callables, predicates, fill and the input iterator
+MODEL_LENA_EXC = LENA_EXC + ["LenaZeroDivisionError", "LenaAttributeError", "LenaNotImplementedError"]
+MODEL_PY_EXC = ["Other:ValueError", "Other:TypeError", "Other:IndexError", "Other:AttributeError"]
+# ... and classes it has none for (adversary follow-up): the anchored code must treat every exception class alike -
+# cases that mention one of these are evaluated by the direct oracle (hand-chained reference) and sent to the model
+# under two different renamings into model classes (see model_requests / _decode_renamed)
+WIDE_EXC = ["LenaKeyError", "LenaRuntimeError", "LenaIndexError", "LenaEnvironmentError", "Other:LenaException",
+            "Other:KeyError", "Other:ZeroDivisionError", "Other:RuntimeError", "Other:NotImplementedError",
+            "Other:OSError", "Other:AssertionError", "Other:LookupError", "Other:ArithmeticError", "Other:EOFError",
+            "Other:OverflowError", "Other:UnicodeError", "Other:NameError", "Other:BufferError"]
 
 
 def exc_class(name):
+    import builtins
     import lena.core
-    return EXC[name] if name in EXC else getattr(lena.core, name)
+    if name in EXC:
+        return EXC[name]
+    if name.startswith("Other:"):
+        n = name[len("Other:"):]
+        return getattr(builtins, n) if hasattr(builtins, n) else getattr(lena.core, n)
+    return getattr(lena.core, name)
 
 
-def make_flow(flow, term, as_list=False):
-    """the input flow: an iterator (or, with as_list, the list itself) over fresh copies of the values, which
-    then raises `term` (if any)"""
+# how a flow object is handed over (adversary follow-up): Sequence.run / Source.__call__ promise to convert whatever
+# iterable they get into an iterator (functions.flow_to_iter); elements like Count take next(flow)
+FLOW_KINDS = ["iter", "list", "tuple", "deque", "reader", "iterclass", "genobj"]
+CONTAINER_KINDS = ("list", "tuple", "deque")
+
+
+# what Python can do with the object: next(flow) works (iterator) or only iter(flow) (iterable)
+KIND_CLASS = {None: "iterator", "iter": "iterator", "iterclass": "iterator", "genobj": "iterator", "genfn": "iterator",
+              "list": "iterable", "tuple": "iterable", "deque": "iterable", "reader": "iterable"}
+
+
+class Reader(object):
+    """an iterable that is not an iterator and has no __len__: only __iter__ (a data reader)"""
+    def __init__(self, vals, exc=None):
+        self._vals, self._exc = vals, exc
+
+    def __iter__(self):
+        for v in self._vals:
+            yield v
+        if self._exc is not None:
+            raise self._exc("input flow failed")
+
+
+class IterClass(object):
+    """a hand-written iterator class (__next__ and __iter__), not a generator"""
+    def __init__(self, vals, exc=None):
+        self._it, self._exc = iter(vals), exc
+
+    def __iter__(self):
+        return self
+
+    def __next__(self):
+        try:
+            return next(self._it)
+        except StopIteration:
+            if self._exc is not None:
+                exc, self._exc = self._exc, None
+                raise exc("input flow failed")
+            raise
+
+
+def make_flow(flow, term, as_list=False, kind=None):
+    """the input flow: an iterator (or, with as_list / kind, a container, an iterable without __next__, an iterator
+    of another class) over fresh copies of the values, which then raises `term` (if any)"""
     vals = dec(flow)
-    if term is None:
-        return vals if as_list else iter(vals)
+    exc = exc_class(term) if term is not None else None
+    if as_list and kind is None:
+        kind = "list"
+    if kind in CONTAINER_KINDS:
+        assert term is None
+        if kind == "list":
+            return vals
+        if kind == "tuple":
+            return tuple(vals)
+        import collections
+        return collections.deque(vals)
+    if kind == "reader":
+        return Reader(vals, exc)
+    if kind == "iterclass":
+        return IterClass(vals, exc)
+    if term is None and kind != "genobj":
+        return iter(vals)
 
     def failing():
         for v in vals:
             yield v
-        raise EXC[term]("input flow failed")
+        if exc is not None:
+            raise exc("input flow failed")
     return failing()
 
 
@@ -403,6 +531,72 @@ def syn_class(run, call, fill, compute, nodata, request=None, fill_into=0, reset
 JUNK = {"none": None}
 
 
+class JunkPlain(object):
+    """an object without any of the interfaces"""
+    _verif_junk = True
+
+
+class JunkGetItem(object):
+    """an old-style sequence: __getitem__ and __len__, no __iter__ - iter() accepts it, lena's tests for a first
+    element of a Source (callable or hasattr __iter__) do not"""
+    _verif_junk = True
+    vals = [1, 2, 3]
+
+    def __getitem__(self, i):
+        return self.vals[i]
+
+    def __len__(self):
+        return len(self.vals)
+
+
+# plain Python callables whose results are outside the model's value universe (bool, dict, bytes, a 2-tuple that is
+# not (data, context)): cases with them have no model side; the direct oracle (hand-chained reference) judges them
+def _p_iseven(v):
+    import lena.flow
+    d = lena.flow.get_data(v)
+    return type(d) is int and d % 2 == 0
+
+
+def _p_isint(v):
+    return type(v) is int
+
+
+def _p_not(v):
+    return not v
+
+
+def _p_true(v):
+    return True
+
+
+def _p_false(v):
+    return False
+
+
+def _p_todict(v):
+    return {"v": v}
+
+
+def _p_tobytes(v):
+    return str(v).encode("ascii", "replace")
+
+
+def _p_pair(v):
+    return (v, v)
+
+
+def _p_zero(v):
+    return 0
+
+
+def _p_empty(v):
+    return ()
+
+
+NATIVE = {"iseven": _p_iseven, "isint": _p_isint, "not": _p_not, "true": _p_true, "false": _p_false,
+          "todict": _p_todict, "tobytes": _p_tobytes, "pair": _p_pair, "zero": _p_zero, "empty": _p_empty}
+
+
 def syn_raise_class():
     if "raise" not in _SYN_CACHE:
         class SynRaise(object):
@@ -554,7 +748,7 @@ def build(spec):
                 for v in vals:
                     yield v
                 if term is not None:
-                    raise EXC[term]("first element failed")
+                    raise exc_class(term)("first element failed")
             return g()
         if cls == "list_iterator":
             return iter(vals)
@@ -564,13 +758,25 @@ def build(spec):
             return itertools.islice(iter(vals), None)
         raise ValueError(cls)
     if k == "junk":
-        return None
+        jk = spec.get("kind", "none")
+        return None if jk == "none" else JunkPlain() if jk == "plain" else JunkGetItem()
+    if k == "callp":
+        return NATIVE[spec["f"]]
     if k == "setctx":
         return lena.meta.SetContext("verif", 1)
     if k == "gen":
-        flow = spec["flow"]
-        return lambda: iter(dec(flow))
+        flow, ret = spec["flow"], spec.get("ret", "iter")
+        if ret == "genfn":
+            def genfn():
+                for v in dec(flow):
+                    yield v
+            return genfn
+        # a callable whose result is an iterator, a container, an iterable without __next__, an iterator class
+        return lambda: make_flow(flow, None, kind=ret)
     if k == "iter":
+        if spec.get("cont"):
+            # (only as first element of a Source) a deque, a reader object with __iter__ only
+            return make_flow(spec["flow"], None, kind=spec["cont"])
         return tuple(dec(spec["flow"])) if spec.get("tuple") else dec(spec["flow"])
     raise ValueError(k)
 
@@ -677,17 +883,17 @@ def build_shared(els, share):
     return objs
 
 
-def run_variant(els, brk, flow, term, as_list=False, share=None):
+def run_variant(els, brk, flow, term, as_list=False, share=None, kind=None):
     import lena.core
     if share:
         seq, err = _construct(lambda: lena.core.Sequence(*nest_objs(build_shared(els, share), brk)))
         if err:
             return err
-        return observe(lambda: seq.run(make_flow(flow, term, as_list)))
+        return observe(lambda: seq.run(make_flow(flow, term, as_list, kind)))
     seq, err = _construct(lambda: lena.core.Sequence(*[build(s) for s in nest(els, brk)]))
     if err:
         return err
-    return observe(lambda: seq.run(make_flow(flow, term, as_list)))
+    return observe(lambda: seq.run(make_flow(flow, term, as_list, kind)))
 
 
 def run_flat(els, brk, flow, term):
@@ -734,22 +940,78 @@ def element_facts(els):
     return facts
 
 
+class _Skip(Exception):
+    pass
+
+
+class _Virtual(object):
+    """stands for an adapters.Run object in the hand-chained reference: an object with a run method, nothing else"""
+    def __init__(self, run):
+        self.run = run
+
+
+def _dispatch(el, fl):
+    """the documented transformation of an object: its run; else its map over the flow; else fill all, then compute"""
+    if fl["run"] == 2:
+        return el.run
+    if fl["call"]:
+        return lambda it: (el(v) for v in it)
+    if fl["fill"] == 2 and fl["compute"] == 2:
+        def fc(it):
+            for v in it:
+                el.fill(v)
+            return el.compute()
+        return fc
+    raise _Skip("unconvertible element")
+
+
+def ref_object(spec):
+    """the object a top-level spec denotes, for the hand-chained reference: the adapter under test (adapters.Run) is
+    not used - Run(x) stands for x's own transformation (run, else callable, else fill/compute), Run(x, run=name)
+    for x.name ("the name of the method run can be customized"), Run(None, run=g) for g"""
+    k = spec["k"]
+    if k == "run":
+        inner = ref_object(spec["el"])
+        return _Virtual(_dispatch(inner, flags_of(inner)))
+    if k == "runnamed":
+        inner = ref_object(spec["el"])
+        if flags_of(inner)["run"] != 2:
+            raise _Skip("no callable run")
+        return _Virtual(inner.run)
+    if k == "runalt":
+        if spec["alt"] != 2:
+            raise _Skip("no callable alt")
+        return _Virtual(syn_alt_class(spec["hasrun"], spec["alt"])().alt)
+    if k == "runnone":
+        f = make_callable(spec["f"])
+
+        def gen_run(flow):
+            for v in flow:
+                yield f(v)
+        return _Virtual(gen_run)
+    if k == "runnonebad":
+        raise _Skip("run not callable")
+    return build(spec)
+
+
+def ref_objects(specs):
+    """fresh objects for the reference, or None (a constructor raises / an adapter cannot be built)"""
+    objs = []
+    for s in specs:
+        try:
+            objs.append(ref_object(s))
+        except Exception:
+            return None
+    return objs
+
+
 def reference(els, flow, term, share=None):
     """The property's own statement: feed each element's stream transformation with the output of the previous one.
     No Sequence, no adapters: fresh elements, chained by hand.  Run's documented transformations: an element with
     run -> run(flow); a callable -> its map over the flow; fill/compute -> fill the whole flow, then compute."""
-    objs = []
-    for s in els:
-        el, err = _construct(lambda: build(s))
-        if err:
-            return {"skip": "element constructor raised"}
-        if s["k"] == "runalt":
-            # "the name of the method run can be customized": the stated transformation of Run(obj, run="alt") is
-            # obj.alt - taken from the object itself, not through the adapter under test
-            inner = syn_alt_class(s["hasrun"], s["alt"])()
-            el = type("Shim", (object,), {})()
-            el.run = inner.alt
-        objs.append(el)
+    objs = ref_objects(els)
+    if objs is None:
+        return {"skip": "element constructor raised"}
     if share:
         objs[share[1]] = objs[share[0]]
     stages = []
@@ -781,7 +1043,8 @@ def run_impl(case):
     op = case["op"]
     if op == "regroup":
         els, flow, term = case["els"], case["flow"], case.get("term")
-        res = {"variants": [run_variant(els, b, flow, term, bool(case.get("lst")), case.get("share")) for b in case["brks"]],
+        res = {"variants": [run_variant(els, b, flow, term, bool(case.get("lst")), case.get("share"), case.get("kind"))
+                            for b in case["brks"]],
                "flat": [run_flat(els, b, flow, term) for b in case["brks"][:2]],
                "facts": [{k: v for k, v in f.items() if k != "flags"} for f in element_facts(els)],
                "ref": reference(els, flow, term, case.get("share")),
@@ -791,13 +1054,15 @@ def run_impl(case):
         els, k = case["els"], case["cut"]
         flows = list(case["pasts"]) + [case["flow"]]
 
+        kind = case.get("kind")
+
         def runs(mk):
             seq, err = _construct(mk)
             if err:
                 return err
             outs = []
             for fl in flows:
-                o = observe(lambda: seq.run(make_flow(fl, None)))
+                o = observe(lambda: seq.run(make_flow(fl, None, kind=kind)))
                 outs.append(o)
                 if o["t"] is not None:
                     break            # after an exception the objects are not run again
@@ -805,11 +1070,35 @@ def run_impl(case):
         whole = runs(lambda: lena.core.Sequence(*[build(s) for s in els]))
         nested = runs(lambda: lena.core.Sequence(lena.core.Sequence(*[build(s) for s in els[:k]]),
                                                  lena.core.Sequence(*[build(s) for s in els[k:]])))
+
+        def runs_rebuilt():
+            """the element objects are built once; before every run NEW Sequence objects are put around them (flat
+            and nested at the cut in turn): elements shared between sequences, elements that were used before the
+            sequence around them was constructed"""
+            objs, err = _construct(lambda: [build(s) for s in els])
+            if err:
+                return err
+            outs = []
+            for i, fl in enumerate(flows):
+                if i % 2 == 0:
+                    seq, err = _construct(lambda: lena.core.Sequence(*objs))
+                else:
+                    seq, err = _construct(lambda: lena.core.Sequence(lena.core.Sequence(*objs[:k]),
+                                                                     lena.core.Sequence(*objs[k:])))
+                if err:
+                    return err
+                o = observe(lambda: seq.run(make_flow(fl, None, kind=kind)))
+                outs.append(o)
+                if o["t"] is not None:
+                    break
+            return outs
+        rebuilt = runs_rebuilt()
         # hand-chained reference that re-uses its element objects
         facts = element_facts(els)
         ref = None
-        if all(f["ctor"] is None for f in facts) and all(f["nodata"] or f["conv"] for f in facts):
-            objs = [build(s) for s in els]
+        robjs = ref_objects(els) if all(f["ctor"] is None for f in facts) and all(f["nodata"] or f["conv"] for f in facts) else None
+        if robjs is not None:
+            objs = robjs
             stages = [(el, flags_of(el)) for el in objs]
             stages = [(el, fl) for el, fl in stages if not fl["nodata"]]
 
@@ -831,7 +1120,7 @@ def run_impl(case):
                 ref.append(o)
                 if o["t"] is not None:
                     break
-        return {"whole": whole, "nested": nested, "ref": ref,
+        return {"whole": whole, "nested": nested, "rebuilt": rebuilt, "ref": ref,
                 "facts": [{k2: v for k2, v in f.items() if k2 != "flags"} for f in facts]}
     if op == "splits":
         def form(bare):
@@ -863,9 +1152,12 @@ def run_impl(case):
                     break
         # hand-chained reference: ONE first object and one object per tail element, used k times
         ref = None
+        robjs = None
         if not err and all(f["ctor"] is None for f in facts) and all(f["nodata"] or f["conv"] for f in facts[1:]) \
                 and not facts[0]["nodata"]:
-            objs = [build(s) for s in args]
+            robjs = ref_objects(args[1:])
+        if robjs is not None:
+            objs = [build(args[0])] + robjs
             first = objs[0]
             stages = [(el, flags_of(el)) for el in objs[1:]]
             stages = [(el, fl) for el, fl in stages if not fl["nodata"]]
@@ -896,12 +1188,18 @@ def run_impl(case):
             mk = lambda: lena.core.Sequence(lena.flow.RunIf(make_pred(case["p"]), *[build(s) for s in case["inner"]]))
         elif what == "accold":
             mk = lambda: lena.core.Sequence(build(dict(case["acc"], k="acc")))
+        elif what == "rawrun":
+            # one element's own run (its adapter's, if it has none) handed the flow object directly, without the
+            # conversion of Sequence.run: what the model assumes about next(flow) (Count.run)
+            def mk():
+                el = build(case["spec"])
+                return el if (hasattr(el, "run") and callable(el.run)) else lena.core.Run(el)
         else:
             mk = lambda: lena.core.Sequence(lena.flow.Slice(*case["args"]))
         seq, err = _construct(mk)
         if err:
             return err
-        return observe(lambda: seq.run(make_flow(case["flow"], case.get("term"))))
+        return observe(lambda: seq.run(make_flow(case["flow"], case.get("term"), kind=case.get("kind"))))
     if op == "source0":
         src, err = _construct(lambda: lena.core.Source())
         return err if err else {"built": True}
@@ -925,8 +1223,9 @@ def run_impl(case):
                     return err
                 return observe(lambda: seq.run(src()))
             variants.append(go())
+        full_facts = element_facts([first] + els)
         res = {"variants": variants,
-               "facts": [{k: v for k, v in f.items() if k != "flags"} for f in element_facts([first] + els)]}
+               "facts": [{k: v for k, v in f.items() if k != "flags"} for f in full_facts]}
         # the effective first element: arguments without data (SetContext, ...) before it are skipped by Source
         args = [first] + els
         eff = None
@@ -937,6 +1236,17 @@ def run_impl(case):
                 eff = i
                 break
         res["eff"] = eff
+        if eff is not None:
+            # what Python says about the effective first element: callable / has __iter__ (the documented
+            # requirement "an object with a generator function __call__() or an iterable") / accepted by iter()
+            fo, _err = _construct(lambda: build(args[eff]))
+            try:
+                iter(fo)
+                pyiter = True
+            except Exception:
+                pyiter = False
+            res["first_caps"] = {"call": bool(full_facts[eff]["flags"]["call"]), "iter": bool(full_facts[eff]["flags"]["iter"]),
+                                 "pyiter": pyiter}
         # the flow of the first element itself, fed to a plain chain of the tail elements
         if eff is not None and args[eff]["k"] in ("gen", "iter", "iterobj", "both"):
             # Source(first, *tl)() == the tail elements chained by hand on <the values of first>
@@ -956,7 +1266,72 @@ def run_impl(case):
 # ----------------------------------------------------------------------------------------
 # model side
 
+def _walk(o):
+    yield o
+    if isinstance(o, dict):
+        for v in o.values():
+            yield from _walk(v)
+    elif isinstance(o, list):
+        for v in o:
+            yield from _walk(v)
+
+
+def model_free(case):
+    """does the case use Python objects the model has no description for (plain callables with bool / dict / bytes
+    results, bool / bytes values)?  Then it has no model side: the direct oracle judges it"""
+    for o in _walk(case):
+        if isinstance(o, dict) and (o.get("k") == "callp" or "bool" in o or "bytes" in o):
+            return True
+    return False
+
+
+def wide_names(case):
+    return sorted({o for o in _walk(case) if isinstance(o, str) and o in WIDE_EXC})
+
+
+# the model is asked twice, with the classes it has no name for renamed into two different sets of model classes
+# (none of which any modelled element treats specially): where the two replies differ exactly by the renaming the
+# exception is the renamed one - the anchored code (and the model) must not depend on the class of an exception
+REPR_A = ["LenaNotImplementedError", "Other:AttributeError"]
+REPR_B = ["LenaAttributeError", "Other:IndexError"]
+
+
+def _subst(o, m):
+    if isinstance(o, dict):
+        return {k: _subst(v, m) for k, v in o.items()}
+    if isinstance(o, list):
+        return [_subst(v, m) for v in o]
+    if isinstance(o, str) and o in m:
+        return m[o]
+    return o
+
+
+def _decode_renamed(a, b, back):
+    """merge the replies to the two renamed requests; `back` maps (name in a, name in b) -> original class"""
+    if isinstance(a, dict) and isinstance(b, dict) and set(a) == set(b):
+        return {k: _decode_renamed(a[k], b[k], back) for k in a}
+    if isinstance(a, list) and isinstance(b, list) and len(a) == len(b):
+        return [_decode_renamed(x, y, back) for x, y in zip(a, b)]
+    if a == b:
+        return a
+    if isinstance(a, str) and isinstance(b, str) and (a, b) in back:
+        return back[(a, b)]
+    raise ValueError(f"the model is not parametric in the exception class: {a} vs {b}")
+
+
 def model_requests(case):
+    if model_free(case):
+        return []
+    wide = wide_names(case)
+    if not wide:
+        return _model_requests(case)
+    if len(wide) > 2:
+        return []
+    return (_model_requests(_subst(case, {w: REPR_A[i] for i, w in enumerate(wide)}))
+            + _model_requests(_subst(case, {w: REPR_B[i] for i, w in enumerate(wide)})))
+
+
+def _model_requests(case):
     op = case["op"]
     if op == "regroup":
         els, flow, term = case["els"], case["flow"], case.get("term")
@@ -970,6 +1345,10 @@ def model_requests(case):
         reqs.append({"op": "sound", "prog": els})
         if els and all(e["k"] in ("call", "var") for e in els):
             reqs.append({"op": "callall", "prog": els, "flow": flow, "term": term})
+        if case.get("kind") or case.get("lst"):
+            # Sequence.run with its two flow_to_iter on a flow object of this kind (Model/C01Kinds.lean)
+            reqs.append({"op": "runk", "prog": nest(els, b0), "flow": flow, "term": term,
+                         "kind": KIND_CLASS["list" if case.get("lst") else case["kind"]]})
         return reqs
     if op == "source":
         first, els = case["first"], case["els"]
@@ -980,6 +1359,9 @@ def model_requests(case):
                 reqs.append({"op": "source", "args": [first] + els})
             else:
                 reqs.append({"op": "source_then", "args": [first] + els[:cut], "prog": els[cut:]})
+        if first["k"] == "gen" and first.get("ret"):
+            # Source.__call__ when the callable first element returns an object of this kind (Src.callObj)
+            reqs.append({"op": "sourcek", "args": [first] + els, "kind": KIND_CLASS[first["ret"]]})
         return reqs
     if op == "flags":
         return [{"op": "flags", "spec": case["spec"]}]
@@ -993,6 +1375,9 @@ def model_requests(case):
             return [{"op": "runifs", "p": case["p"], "inner": case["inner"], "flow": case["flow"], "term": case.get("term")}]
         if what == "accold":
             return [dict(case["acc"], op="accold", flow=case["flow"])]
+        if what == "rawrun":
+            return [{"op": "rawrun", "spec": case["spec"], "flow": case["flow"], "term": case.get("term"),
+                     "kind": KIND_CLASS[case["kind"]]}]
         return [{"op": "pyslice", "args": case["args"], "flow": case["flow"]}]
     if op == "splits":
         return [{"op": "splits", "branches": case["branches"], "bufsize": case["bufsize"], "flow": case["flow"],
@@ -1025,6 +1410,18 @@ def compare(case, res, replies):
     for m in replies:
         if "err" in m:
             return f"model driver error: {m['err']}"
+    wide = wide_names(case)
+    if wide:
+        n = len(replies) // 2
+        back = {(REPR_A[i], REPR_B[i]): w for i, w in enumerate(wide)}
+        try:
+            replies = [_decode_renamed(a, b, back) for a, b in zip(replies[:n], replies[n:])]
+        except ValueError as e:
+            return str(e)
+    return _compare(case, res, replies)
+
+
+def _compare(case, res, replies):
     op = case["op"]
     if op == "regroup":
         nb = len(case["brks"])
@@ -1057,10 +1454,16 @@ def compare(case, res, replies):
                     return f"conversion per data element: documented precedence gives {want}, model {snd}"
             elif snd != {"e": "LenaTypeError", "phase": "init"}:
                 return f"unconvertible argument: model {snd}"
-        if len(replies) > k + 4:
+        has_callall = bool(case["els"]) and all(e["k"] in ("call", "var") for e in case["els"])
+        if has_callall:
             m = _canon_reply(replies[k + 4])
             if "e" not in res["variants"][0] and _differs(m, res["variants"][0]):
                 return f"impl {res['variants'][0]} vs model mapS (callAll es) {m}"
+        if case.get("kind") or case.get("lst"):
+            mk = replies[k + 4 + int(has_callall)]
+            if _differs(_canon_reply(mk), res["variants"][0]) or mk.get("kind", "iterator") != "iterator":
+                return (f"bracketing {case['brks'][0]}, flow handed over as {case.get('kind') or 'list'}: impl "
+                        f"{res['variants'][0]} vs model (runObj: Sequence.run with flow_to_iter) {mk}")
         return None
     if op == "source":
         for i, cut in enumerate(case["cuts"]):
@@ -1071,6 +1474,12 @@ def compare(case, res, replies):
             if cut == len(case["els"]) + 1 and sp is not None and "e" not in res["variants"][i] \
                     and _differs(_canon_reply(sp), res["variants"][i]):
                 return f"Source()(): impl {res['variants'][i]} vs model right-hand side of source_tail {_canon_reply(sp)}"
+        if case["first"]["k"] == "gen" and case["first"].get("ret") and (len(case["els"]) + 1) in case["cuts"]:
+            mk = replies[len(case["cuts"])]
+            v = res["variants"][case["cuts"].index(len(case["els"]) + 1)]
+            if _differs(_canon_reply(mk), v) or mk.get("kind", "iterator") != "iterator":
+                return (f"Source(first, *els)() with a first element that returns a {case['first']['ret']}: impl {v} vs "
+                        f"model (Src.callObj) {mk}")
         return None
     if op == "source0":
         return None if res == replies[0] else f"Source(): impl {res} vs model {replies[0]}"
@@ -1088,6 +1497,9 @@ def compare(case, res, replies):
             return None if m == res else f"impl {res} vs model {m}"
         if case["what"] == "runifs":
             return None if not _differs(_canon_reply(m), res) else f"RunIf: impl {res} vs model runIfS {_canon_reply(m)}"
+        if case["what"] == "rawrun":
+            return None if not _differs(_canon_reply(m), res) else (
+                f"el.run(flow) on a flow handed over as {case['kind']}: impl {res} vs model Stored.runObj {_canon_reply(m)}")
         if _differs(model_value(m["r"]), res["r"]) or (case["what"] == "accold" and m["t"] != res["t"]):
             return f"{case['what']}: impl {res} vs model {m}"
         return None
@@ -1108,6 +1520,14 @@ def compare(case, res, replies):
                 return f"run {i} of the re-used sequence: impl {o} vs model (Seq.rerun) {outs_m[i]}"
         if len(w) == len(outs_m) and _differs(_canon_reply(m["split"]), w[-1]):
             return f"last run: impl {w[-1]} vs model (split form of seq_rerun_append) {_canon_reply(m['split'])}"
+        rb = res.get("rebuilt")
+        if isinstance(rb, list):
+            for i, o in enumerate(rb):
+                if _differs(outs_m[i], o):
+                    return f"run {i} with new Sequence objects around the used elements: impl {o} vs model (Seq.rerun) {outs_m[i]}"
+            if len(rb) == len(outs_m) and _differs(_canon_reply(m["hist"]), rb[-1]):
+                return (f"last run with new Sequence objects around the used elements: impl {rb[-1]} vs model "
+                        f"(runWithHist: every element with its own history) {_canon_reply(m['hist'])}")
         return None
     if op == "flags":
         m = replies[0]
@@ -1145,7 +1565,8 @@ def oracle(case, res):
         exp = _init_expectation(res["facts"])
         what = f"elements {case['els']} flows {case['pasts'] + [case['flow']]} (one Sequence object, run repeatedly)"
         for nm, v in (("Sequence(*els)", res["whole"]),
-                      (f"Sequence(Sequence(*els[:{case['cut']}]), Sequence(*els[{case['cut']}:]))", res["nested"])):
+                      (f"Sequence(Sequence(*els[:{case['cut']}]), Sequence(*els[{case['cut']}:]))", res["nested"]),
+                      ("new Sequence objects around the same element objects before every run", res["rebuilt"])):
             if exp == "reject":
                 if v != {"e": "LenaTypeError", "phase": "init"}:
                     return f"{nm}: unconvertible argument must be rejected with LenaTypeError at construction, got {v}; {what}"
@@ -1161,6 +1582,10 @@ def oracle(case, res):
             return None
         if res["whole"] != res["nested"]:
             return f"regrouping changes the result of a repeated run: Sequence(*els) gives {res['whole']}, nested at {case['cut']} gives {res['nested']}; {what}"
+        if res["whole"] != res["rebuilt"]:
+            return (f"a Sequence constructed around element objects that were used before does not compute the composition of "
+                    f"their transformations: one Sequence object run repeatedly gives {res['whole']}, new Sequence objects "
+                    f"(flat / nested at {case['cut']} in turn) around the same elements give {res['rebuilt']}; {what}")
         ref = res["ref"]
         if ref is not None:
             for i, (o, r) in enumerate(zip(res["whole"], ref)):
@@ -1247,9 +1672,22 @@ def oracle(case, res):
     if op == "source":
         eff = res.get("eff")
         args = [case["first"]] + case["els"]
+        n = len(case["els"])
+        caps = res.get("first_caps")
+        if eff is not None and caps and not caps["call"] and not caps["iter"] and all(f["ctor"] is None for f in res["facts"]):
+            # a first element that is neither callable nor iterable cannot be converted: LenaTypeError when the
+            # Source is constructed, never later (every variant constructs a Source around it).  An object that only
+            # iter() accepts (__getitem__) may alternatively be accepted - then it must work.
+            for c, v in zip(case["cuts"], res["variants"]):
+                if (c == n + 1 or c >= eff) and v != {"e": "LenaTypeError", "phase": "init"}:
+                    if caps["pyiter"] and "e" not in v and v.get("t") is None:
+                        continue
+                    return (f"the first element of a Source is neither callable nor iterable: it must be rejected with "
+                            f"LenaTypeError when the Source is constructed, got {v} (cut {c}); first {case['first']} "
+                            f"elements {case['els']}")
+            return None
         if eff is None or args[eff]["k"] not in ("gen", "iter", "seq", "iterobj", "both"):
             return None      # first-element rules are covered by the correspondence, not by this statement
-        n = len(case["els"])
         # the cuts whose Source contains the effective first element (arguments before it carry no data)
         keep = [i for i, c in enumerate(case["cuts"]) if c == n + 1 or c >= eff]
         vs = [res["variants"][i] for i in keep]
@@ -1335,15 +1773,45 @@ def gen_value(rng, kind):
     return {"t": [rng.choice(["s", [1]]), {"d": gen_ctx(rng)}]}       # non-numeric data with context
 
 
-def gen_flow(rng, maxlen=8):
+def gen_flow(rng, maxlen=8, free=False):
     kind = rng.choice(["ints", "ints", "pairs", "mixed", "mixed"])
     n = rng.choice([0, 1, 2, 3, 3, 4, 5, 6, 7, 8])
     n = min(n, maxlen)
-    return [gen_value(rng, kind) for _ in range(n)]
+    vals = [gen_value(rng, kind) for _ in range(n)]
+    if free:
+        # values outside the model's universe (cases without a model side): bool, bytes, a dict as data
+        for i in range(len(vals)):
+            if rng.random() < 0.25:
+                vals[i] = rng.choice([{"bool": 1}, {"bool": 0}, {"bytes": "ab"}, {"d": {"a": 1}}, {"t": []},
+                                      {"t": [{"bool": 1}, {"d": {}}]}])
+    return vals
+
+
+def pick_exc(rng, allow_stopfill=True, wide=0.25):
+    """an exception class for a callable / predicate / fill / input iterator: mostly the classes generated so far,
+    also the other classes the model names, and (adversary follow-up) classes it has no name for"""
+    r = rng.random()
+    if r < wide:
+        return rng.choice(WIDE_EXC)
+    if r < wide + 0.2:
+        return rng.choice(MODEL_LENA_EXC[3:] + MODEL_PY_EXC)
+    return rng.choice([e for e in LENA_EXC if allow_stopfill or e != "LenaStopFill"])
 
 
 def gen_term(rng, p=0.12):
-    return rng.choice(list(EXC)) if rng.random() < p else None
+    if rng.random() >= p:
+        return None
+    return rng.choice(list(EXC)) if rng.random() < 0.6 else pick_exc(rng, wide=0.6)
+
+
+def gen_kind(rng, term, p=0.4):
+    """how the input flow is handed over: None = an iterator (list_iterator; a generator if it raises)"""
+    if rng.random() >= p:
+        return None
+    return rng.choice(FLOW_KINDS[1:] if term is None else ["reader", "iterclass", "genobj"])
+
+
+GEN_RETS = ["iter", "list", "tuple", "deque", "reader", "iterclass", "genobj", "genfn"]
 
 
 def gen_syn(rng, stateless=False):
@@ -1398,19 +1866,21 @@ def gen_atom(rng, st):
     """a non-nested element"""
     rerun, stateless, region = st["rerun"], st["stateless"], st["region"]
     r = rng.random()
-    lena_excs = [e for e in LENA_EXC if not (st.get("no_stopfill") and e == "LenaStopFill")]
+    nsf = not st.get("no_stopfill")
     if r < 0.22:
         rr = rng.random()
+        if st.get("free") and rr < 0.45:
+            return {"k": "callp", "f": rng.choice(sorted(NATIVE))}         # bool / dict / bytes / tuple results
         if rr < 0.08:
             return {"k": "callx", "none": True, "exc": None}               # returns None for odd data
         if rr < 0.16:
-            return {"k": "callx", "none": False, "exc": rng.choice(lena_excs)}   # raises a Lena exception on 13
+            return {"k": "callx", "none": False, "exc": pick_exc(rng, nsf)}   # raises an exception on 13
         return {"k": "call", "f": rng.choice(FNS)}
     if r < 0.30:
         return {"k": "var", "name": rng.choice(["x", "y"]), "f": rng.choice(["inc", "neg", "ident", "mod3"])}
     if r < 0.42:
         if rng.random() < 0.12:
-            return {"k": "filterx", "exc": rng.choice(lena_excs)}
+            return {"k": "filterx", "exc": pick_exc(rng, nsf)}
         return {"k": "filter", "p": rng.choice(PREDS)}
     if r < 0.58:
         if region is not None and region["stateful_seen"]:
@@ -1423,7 +1893,8 @@ def gen_atom(rng, st):
     if r < 0.70:
         rr = rng.random()
         if rr < 0.25:
-            return {"k": "junk"}
+            jk = rng.choice(["none", "none", "plain", "getitem"])
+            return {"k": "junk"} if jk == "none" else {"k": "junk", "kind": jk}
         if rr < 0.5:
             return {"k": "setctx"}
         if rr < 0.57:
@@ -1451,7 +1922,7 @@ def gen_atom(rng, st):
     # accumulators
     a = rng.choice(["sum", "mean", "store", "store", "count", "raise"])
     if a == "raise":
-        return {"k": "synraise", "exc": rng.choice(lena_excs)}     # a fill that raises a Lena exception on 13
+        return {"k": "synraise", "exc": pick_exc(rng, nsf)}     # a fill that raises an exception on 13
     if a == "store":
         # a StoreFilled that is run again yields its stored value objects again; with yield_as_a_group=False the
         # elements after it (Count, Variable) would have changed their contexts in place in the earlier run
@@ -1528,6 +1999,15 @@ def gen_branch(rng, st, depth):
 
 
 def gen_elem(rng, st, depth):
+    """an element; (adversary follow-up) the caller may wrap ANY element - also a nested one, also an adapter - with
+    adapters.Run itself: Run(RunIf(..)), Run(Split(..)), Run(Sequence(..)), Run(Run(obj, run="alt")), ..."""
+    e = _gen_elem0(rng, st, depth)
+    while rng.random() < (0.04 if e["k"] not in ("run", "runnamed") else 0.25):
+        e = {"k": "run" if rng.random() < 0.65 else "runnamed", "el": e}
+    return e
+
+
+def _gen_elem0(rng, st, depth):
     """an element, possibly nested (RunIf, Split, Sequence inside those)"""
     r = rng.random()
     if depth >= 3 or r < 0.78:
@@ -1613,6 +2093,15 @@ REPRESENTATIVES = (
        {"k": "filterx", "exc": "LenaValueError"}, {"k": "synraise", "exc": "LenaStopFill"},
        {"k": "synraise", "exc": "LenaValueError"}, {"k": "runalt", "hasrun": True, "alt": 2}, {"k": "classobj"}]
 )
+
+# a run element with a callable alter_sequence that proposes itself hoisted to the front (see syn_class)
+HOIST = {"k": "syn", "run": 2, "call": False, "fill": 0, "compute": 0, "nodata": False, "request": 0, "fill_into": 0,
+         "reset": 0, "alter": 2}
+
+
+def hash_str(x):
+    return sum(ord(c) for c in x)
+
 
 FLOW_A = [1, 2, 3, 4, 13, 6]
 FLOW_B = [{"t": [3, {"d": {"a": 1}}]}, 4, {"t": [5, {"d": {"b": "x"}}]}, "s", 8]
@@ -1744,18 +2233,81 @@ def gen_cases(ctx):
                 continue
             # quick: one of the two flows per pair (alternating); thorough: both
             for fl in ((FLOW_A, FLOW_B) if thorough else ((FLOW_A,) if (i + j) % 2 == 0 else (FLOW_B,))):
-                yield ({"op": "regroup", "els": [a, b], "flow": fl, "term": None, "brks": [[0, 1], [[0], [1]], [[0, 1]]]})
-    for a in reps:
+                case = {"op": "regroup", "els": [a, b], "flow": fl, "term": None, "brks": [[0, 1], [[0], [1]], [[0, 1]]]}
+                kd = FLOW_KINDS[(i + 2 * j) % len(FLOW_KINDS)]       # how the flow is handed over: in turn
+                if kd != "iter":
+                    case["kind"] = kd
+                yield (case)
+    for i, a in enumerate(reps):
         for fl, term in ((FLOW_A, "Other:IndexError"), ([], None), ([7], "Other:TypeError")):
             yield ({"op": "regroup", "els": [a], "flow": fl, "term": term, "brks": [[0], [[0]]]})
             yield ({"op": "source", "first": {"k": "gen", "flow": fl}, "els": [a, inc], "cuts": [0, 1, 2, 3]})
+        # every representative as the first element that receives a flow handed over in every way (a container, an
+        # iterable without __next__, a hand-written iterator, a generator object), from run() and from the callable
+        # first element of a Source
+        for kd in FLOW_KINDS[1:]:
+            yield ({"op": "regroup", "els": [a, {"k": "call", "f": "wrap"}], "flow": FLOW_A, "term": None, "kind": kd,
+                    "brks": [[0, 1], [[0], 1]]})
+        for kd in ("reader", "iterclass", "genobj"):
+            yield ({"op": "regroup", "els": [a], "flow": [1, 2], "term": WIDE_EXC[i % len(WIDE_EXC)], "kind": kd,
+                    "brks": [[0], [[0]]]})
+        for rt in GEN_RETS[1:]:
+            yield ({"op": "source", "first": {"k": "gen", "flow": FLOW_A, "ret": rt}, "els": [a, {"k": "call", "f": "wrap"}],
+                    "cuts": [0, 1, 3]})
+        for ct in ("tuple", "deque", "reader"):
+            yield ({"op": "source", "first": {"k": "iter", "flow": FLOW_A, "cont": ct}, "els": [a, {"k": "call", "f": "wrap"}],
+                    "cuts": [0, 1, 3]})
+    # adapters put by the caller around every kind of element: nested ones, other adapters, adapters with another method
+    # name (the reference takes the inner object's own transformation, never adapters.Run)
+    inner_kinds = [{"k": "runalt", "hasrun": True, "alt": 2}, {"k": "runalt", "hasrun": False, "alt": 2},
+                   {"k": "runalt", "hasrun": True, "alt": 1}, {"k": "runnone", "f": "inc"}, {"k": "runnonebad"},
+                   {"k": "run", "el": {"k": "call", "f": "inc"}}, {"k": "run", "el": {"k": "acc", "a": "sum"}},
+                   {"k": "run", "el": {"k": "count", "name": "n"}}, {"k": "runnamed", "el": {"k": "count", "name": "n"}},
+                   {"k": "seq", "els": [inc, {"k": "count", "name": "n"}]}, {"k": "seq", "els": []},
+                   {"k": "runif", "p": "even", "inner": [inc]},
+                   {"k": "split", "branches": [[inc], [{"k": "acc", "a": "sum"}]], "bufsize": 2},
+                   {"k": "syn", "run": 2, "call": True, "fill": 2, "compute": 2, "nodata": False},
+                   {"k": "syn", "run": 1, "call": True, "fill": 2, "compute": 2, "nodata": True},
+                   {"k": "syn", "run": 0, "call": False, "fill": 2, "compute": 2, "nodata": False},
+                   {"k": "setctx"}, {"k": "classobj"}, {"k": "junk", "kind": "plain"}]
+    for x in inner_kinds:
+        for w in ({"k": "run", "el": x}, {"k": "runnamed", "el": x}, {"k": "run", "el": {"k": "run", "el": x}},
+                  {"k": "runnamed", "el": {"k": "run", "el": x}}, {"k": "run", "el": {"k": "runnamed", "el": x}}):
+            yield ({"op": "flags", "spec": w})
+            yield ({"op": "regroup", "els": [inc, w, {"k": "call", "f": "wrap"}], "flow": FLOW_A, "term": None,
+                    "brks": [[0, 1, 2], [0, [1, 2]], [[0, 1], 2]]})
+            yield ({"op": "source", "first": {"k": "gen", "flow": [1, 2, 3]}, "els": [w, inc], "cuts": [0, 1, 3]})
+            yield ({"op": "rerun", "els": [w, inc], "pasts": [[1, 2]], "flow": [3], "cut": 1})
+    # a first element of a Source that is neither callable nor iterable (an object without interfaces, an old-style
+    # sequence with __getitem__ only), alone and with a tail
+    for jk in ("none", "plain", "getitem"):
+        j = {"k": "junk"} if jk == "none" else {"k": "junk", "kind": jk}
+        for tl in ([], [inc], [{"k": "count", "name": "n"}, inc], [{"k": "setctx"}], [{"k": "junk"}]):
+            yield ({"op": "source", "first": j, "els": tl, "cuts": list(range(len(tl) + 2))})
+        yield ({"op": "source", "first": {"k": "setctx"}, "els": [j, inc], "cuts": [1, 2, 3]})
+        yield ({"op": "regroup", "els": [inc, j], "flow": [1, 2], "term": None, "brks": [[0, 1], [0, [1]]]})
+        yield ({"op": "flags", "spec": j})
+    # every exception class, raised by a callable / a predicate / a fill / the input iterator, in front of and behind
+    # a fill/compute element, a callable and a run element
+    for x in MODEL_LENA_EXC + MODEL_PY_EXC + WIDE_EXC:
+        for raiser in ({"k": "callx", "none": False, "exc": x}, {"k": "filterx", "exc": x}, {"k": "synraise", "exc": x}):
+            yield ({"op": "regroup", "els": [inc, raiser, {"k": "acc", "a": "sum"}], "flow": [1, 12, 3, 12], "term": None,
+                    "brks": [[0, 1, 2], [[0, 1], 2], [0, [1, 2]]]})
+        yield ({"op": "regroup", "els": [inc, {"k": "acc", "a": "store", "group": True}, inc], "flow": [1, 2], "term": x,
+                "brks": [[0, 1, 2], [[0, 1], 2]]})
+        yield ({"op": "source", "first": {"k": "iterobj", "cls": "generator", "flow": [1, 2], "term": x},
+                "els": [inc, {"k": "acc", "a": "sum"}], "cuts": [0, 1, 2, 3]})
     # all bracketings of random lists
     plan = [(2, 30), (3, 40), (4, 30)] if not thorough else [(2, 200), (3, 300), (4, 200), (5, 60)]
     for n, count in plan:
         brks = all_bracketings(n)
         for _ in range(count):
             els = gen_prog(rng, n)
-            yield ({"op": "regroup", "els": els, "flow": gen_flow(rng), "term": gen_term(rng), "brks": brks})
+            case = {"op": "regroup", "els": els, "flow": gen_flow(rng), "term": gen_term(rng), "brks": brks}
+            kd = gen_kind(rng, case["term"], 0.3)
+            if kd:
+                case["kind"] = kd
+            yield (case)
     # ---- sampled ------------------------------------------------------------------------------------
     n_rand = 2500 if not thorough else 40000
     for _ in range(n_rand):
@@ -1764,8 +2316,27 @@ def gen_cases(ctx):
         nb = rng.randint(2, 5)
         brks = [flat_bracketing(n)] + [random_bracketing(rng, n) for _ in range(nb)]
         case = {"op": "regroup", "els": els, "flow": gen_flow(rng), "term": gen_term(rng), "brks": brks}
-        if case["term"] is None and rng.random() < 0.3:
+        if case["term"] is None and rng.random() < 0.15:
             case["lst"] = True       # Sequence.run is handed the list itself, not an iterator over it
+        else:
+            kd = gen_kind(rng, case["term"], 0.35)
+            if kd:
+                case["kind"] = kd
+        yield (case)
+    # the same over Python objects the model does not describe (plain callables with bool / dict / bytes / tuple
+    # results; bool, bytes, dicts as values): no model side, judged by the hand-chained reference alone
+    for _ in range(500 if not thorough else 8000):
+        n = rng.choice([1, 2, 2, 3, 3, 4, 5])
+        st = new_state()
+        st["free"] = True
+        els = [gen_elem(rng, st, 0) for _e in range(n)]
+        if not any(k == "callp" for k in _kinds_of(els)):
+            els[rng.randrange(n)] = {"k": "callp", "f": rng.choice(sorted(NATIVE))}
+        case = {"op": "regroup", "els": els, "flow": gen_flow(rng, free=True), "term": gen_term(rng),
+                "brks": [flat_bracketing(n)] + [random_bracketing(rng, n) for _b in range(2)]}
+        kd = gen_kind(rng, case["term"], 0.35)
+        if kd:
+            case["kind"] = kd
         yield (case)
     # one Sequence object run several times (its elements keep their state): the whole program is a rerun region
     n_rerun = 700 if not thorough else 12000
@@ -1773,8 +2344,12 @@ def gen_cases(ctx):
         n = rng.choice([1, 1, 2, 2, 3, 3, 4, 5])
         st = new_state(rerun=True)
         els = [gen_elem(rng, st, 0) for _ in range(n)]
-        yield ({"op": "rerun", "els": els, "pasts": [gen_flow(rng, 5) for _ in range(rng.choice([1, 1, 2]))],
-                "flow": gen_flow(rng, 5), "cut": rng.randint(0, n)})
+        case = {"op": "rerun", "els": els, "pasts": [gen_flow(rng, 5) for _ in range(rng.choice([1, 1, 2]))],
+                "flow": gen_flow(rng, 5), "cut": rng.randint(0, n)}
+        kd = gen_kind(rng, None, 0.3)
+        if kd:
+            case["kind"] = kd
+        yield (case)
     # Split over stateless sequence branches: the simple schedule splitS and the general splitH against the code
     for _ in range(300 if not thorough else 4000):
         bst = new_state(rerun=True, stateless=True)
@@ -1790,17 +2365,42 @@ def gen_cases(ctx):
                     e = {"k": "call", "f": "ident"}
                 b.append(e)
             branches.append(b)
+        if branches and rng.random() < 0.3:
+            # an element with a callable alter_sequence (it proposes a sequence with itself in front, the way Cache
+            # proposes a Source) somewhere in a branch: as a Sequence object the branch goes through the loop of
+            # meta.alter_sequence
+            b = rng.choice(branches)
+            b.insert(rng.randint(0, len(b)), dict(HOIST, call=rng.random() < 0.3))
+        for b in branches:
+            # two elements that both propose themselves in front never agree: alter_sequence would recurse for ever
+            # (ill-behaved elements, not a sequence of the vocabulary): at most one proposer per branch
+            seen = False
+            for i, e in enumerate(b):
+                if e["k"] == "syn" and e.get("alter") == 2:
+                    if seen:
+                        b[i] = dict(e, alter=0)
+                    seen = True
         yield ({"op": "splits", "branches": branches, "bufsize": rng.choice([None, 1, 2, 3, 4, 1000, 0]),
                 "flow": gen_flow(rng), "term": gen_term(rng)})
+    wrap = {"k": "call", "f": "wrap"}
+    for br in ([inc, HOIST], [HOIST, inc], [inc, HOIST, wrap], [inc, wrap, HOIST], [HOIST], [inc, dict(HOIST, call=True)],
+               [{"k": "filter", "p": "even"}, HOIST, {"k": "slice", "args": [1]}]):
+        for bufsize in (None, 2):
+            yield ({"op": "splits", "branches": [br], "bufsize": bufsize, "flow": FLOW_A, "term": None})
+            yield ({"op": "splits", "branches": [[wrap], br], "bufsize": bufsize, "flow": [1, 2, 3], "term": None})
     # one Source object called two or three times
     for _ in range(350 if not thorough else 8000):
         r = rng.random()
         if r < 0.3:
             first = {"k": "gen", "flow": gen_flow(rng, 5)}
+            if rng.random() < 0.5:
+                first["ret"] = rng.choice(GEN_RETS[1:])      # what the callable returns: a container, a reader, ...
         elif r < 0.5:
             # a container is iterated again and yields the SAME value objects: only immutable values (a Count or
             # Variable in the tail changes contexts in place - aliasing is C04, this model has value semantics)
             first = {"k": "iter", "flow": [rng.choice(INTS + ["s", NONE]) for _v in range(rng.randint(0, 5))]}
+            if rng.random() < 0.5:
+                first["cont"] = rng.choice(["tuple", "deque", "reader"])
         elif r < 0.9:
             first = {"k": "iterobj", "cls": rng.choice(["generator", "list_iterator", "map", "islice"]),
                      "flow": gen_flow(rng, 5), "term": None}
@@ -1841,6 +2441,14 @@ def gen_cases(ctx):
         fl = [v for v in gen_flow(rng) if not (isinstance(v, dict) and "q" in v)]
         yield ({"op": "tie", "what": "accold", "acc": a, "flow": fl})
         yield ({"op": "tie", "what": "pyslice", "args": rng.choice(SLICES), "flow": gen_flow(rng)})
+    # one element's own run on a flow object of every kind, without the conversion of Sequence.run (Count.run takes
+    # next(flow): a TypeError for a container / a reader; everything else iterates)
+    for a in REPRESENTATIVES:
+        if "split" in _kinds_of([a]):
+            continue         # Split.run reads blocks with islice(flow, n): on a container it would read the first block for ever
+        for kd in FLOW_KINDS:
+            yield ({"op": "tie", "what": "rawrun", "spec": a, "flow": FLOW_A if kd in ("list", "iterclass") else [1, 2],
+                    "term": None, "kind": kd})
     n_src = 1000 if not thorough else 15000
     for _ in range(n_src):
         n = rng.choice([0, 1, 2, 3, 4, 5, 6])
@@ -1848,8 +2456,12 @@ def gen_cases(ctx):
         r = rng.random()
         if r < 0.35:
             first = {"k": "gen", "flow": gen_flow(rng)}
+            if rng.random() < 0.5:
+                first["ret"] = rng.choice(GEN_RETS[1:])
         elif r < 0.6:
             first = {"k": "iter", "flow": gen_flow(rng)}
+            if rng.random() < 0.5:
+                first["cont"] = rng.choice(["tuple", "deque", "reader"])
         elif r < 0.9:
             cls = rng.choice(["generator", "generator", "list_iterator", "map", "islice"])
             first = {"k": "iterobj", "cls": cls, "flow": gen_flow(rng),
@@ -1923,6 +2535,12 @@ def classify(case, res):
     if op == "tie":
         return ["op:tie:" + case["what"]]
     labels = ["op:" + op]
+    if case.get("kind"):
+        labels.append("flow-handed-as:" + case["kind"])
+    if model_free(case):
+        labels.append("no-model-side")
+    if wide_names(case):
+        labels.append("exception-class-without-model-name")
     ks = []
     for s in case["els"]:
         _kinds(s, ks)
@@ -1983,7 +2601,11 @@ def shrink(case):
             yield dict(case, term=None)
         if case.get("lst"):
             yield {k: v for k, v in case.items() if k != "lst"}
+        if case.get("kind") in ("tuple", "deque", "genobj"):
+            yield dict(case, kind="list" if case["kind"] != "genobj" else "iterclass")
         for i, e in enumerate(case["els"]):
+            if e["k"] in ("run", "runnamed"):
+                yield dict(case, els=case["els"][:i] + [e["el"]] + case["els"][i + 1:])
             for sub in ("inner", "els"):
                 if e.get(sub):
                     for j in range(len(e[sub])):
@@ -2002,6 +2624,17 @@ def shrink(case):
                 yield dict(case, pasts=case["pasts"][:j] + [fl[:i] + fl[i + 1:]] + case["pasts"][j + 1:])
         for i in range(len(case["flow"])):
             yield dict(case, flow=case["flow"][:i] + case["flow"][i + 1:])
+    elif op == "splits":
+        bs = case["branches"]
+        for i in range(len(bs)):
+            yield dict(case, branches=bs[:i] + bs[i + 1:])
+        for i, b in enumerate(bs):
+            for j in range(len(b)):
+                yield dict(case, branches=bs[:i] + [b[:j] + b[j + 1:]] + bs[i + 1:])
+        for i in range(len(case["flow"])):
+            yield dict(case, flow=case["flow"][:i] + case["flow"][i + 1:])
+        if case.get("term"):
+            yield dict(case, term=None)
     elif op == "source":
         n = len(case["els"])
         if len(case["cuts"]) > 2:
@@ -2030,7 +2663,7 @@ LEVEL_TEXT = ("Lean 4 theorems about a transcribed model of Sequence/Source/Lena
               "repeated runs and a hand-chained reference composition on the real code.")
 LEVEL_NOTE = ("Trusted: Lean kernel (+ propext, Classical.choice, Quot.sound), the hand transcription validated by the "
               "correspondence run, the stream abstraction of generator chains, islice/deque semantics as transcribed, the "
-              "JSON protocol. 22 theorems carry the property; 15 auxiliary ones (definitional / model-internal) are audited "
+              "JSON protocol. 33 theorems carry the property; 21 auxiliary ones (definitional / model-internal) are audited "
               "but not counted.")
 TECHNIQUE = "Lean 4 proof over hand-written model + correspondence check (exhaustive small scopes, seeded sampling)"
 DESIGN_REF = "DESIGN.md section 3, C01"
